@@ -94,7 +94,9 @@ def expected_events(stmts, cls: str):
     out = []
     for st in stmts:
         st = gen.normalize_stmt(st)
-        if cls == "T":
+        if cls == "T" or len(st) == 3:
+            # (a triple in a quad-class expectation: only reachable when a writer ACCEPTED a triple where the unchanged code
+            # refuses it — what was accepted must read back as given; never crash the harness on it)
             out.append(Triple(*st[:3]))
         else:
             out.append(Quad(*st[:4]))
